@@ -1,0 +1,194 @@
+//go:build verif
+
+// Contracts for property C13: answers depend on current geometry and options only, never on call
+// history. Proved here: the ShapeIndex bookkeeping invariant across NewShapeIndex / Add / Reset /
+// Build / Iterator, the lock discipline of the update path (no re-entrant Lock), and the frame
+// conditions of the EdgeQuery entry points (a query never changes the options it was given).
+// Comment-only; build tag verif.
+
+package s2
+
+//@ import "github.com/golang/geo/s1"
+//@ import "github.com/golang/geo/r2"
+
+//@ property C13
+
+// ---------------------------------------------------------------- ShapeIndex bookkeeping
+
+// SI: every shape id below nextID is present (nothing removed), ids at or above it are absent,
+// pending additions start at pendingAdditionsPos <= nextID, and a fresh index has nothing pending.
+//@ spec func vcSIcore(s *ShapeIndex) bool = s != nil && s.shapes != nil && s.cellMap != nil &&
+//@    0 <= s.pendingAdditionsPos && s.pendingAdditionsPos <= s.nextID && s.nextID < 1<<30 &&
+//@    len(s.shapes) == int(s.nextID) &&
+//@    (forall k int32 :: k >= s.nextID || k < 0 ==> !vcMapHas(s.shapes, k))
+//@ spec func vcSI(s *ShapeIndex) bool = vcSIcore(s) && (s.status == fresh || s.status == stale) &&
+//@    (s.status == fresh ==> s.pendingAdditionsPos == s.nextID && len(s.pendingRemovals) == 0)
+
+//@ func NewShapeIndex() *ShapeIndex
+//@   ensures [SI] vcSI(result) && vcFresh(result) && result.nextID == 0 && result.status == fresh && !vcHeld(&result.mu)
+
+//@ func (s *ShapeIndex) Add(shape Shape) int32
+//@   requires vcSI(s) && !vcHeld(&s.mu) && s.nextID < 1<<30-1
+//@   modifies s.nextID, s.status, s.shapes{*}
+//@   ensures [SI] vcSI(s)
+//@   ensures [stale] s.status == stale && s.nextID == old(s.nextID)+1 && result == old(s.nextID)
+//@   ensures [pending] s.pendingAdditionsPos == old(s.pendingAdditionsPos)
+
+//@ func (s *ShapeIndex) Reset()
+//@   requires s != nil && !vcHeld(&s.mu)
+//@   modifies *s
+//@   ensures [SI] vcSI(s)
+//@   ensures [empty] s.nextID == 0 && len(s.cells) == 0 && s.status == fresh
+
+//@ func (s *ShapeIndex) isFirstUpdate() bool
+//@   requires s != nil
+//@   ensures result == (s.pendingAdditionsPos == 0)
+
+//@ func (s *ShapeIndex) IsFresh() bool
+//@   requires s != nil
+//@   ensures result == (s.status == fresh)
+
+// The update path runs with the index lock held and the status not yet fresh.
+//@ spec func vcUpdating(s *ShapeIndex) bool = vcSIcore(s) && vcHeld(&s.mu) && s.status != fresh
+
+//@ func (s *ShapeIndex) removeShapeInternal(removed *removedShape, allEdges [][]faceEdge, t *tracker)
+//@   assumed "edge clipping (float) and interior pointers: body outside the subset; touches only allEdges and the tracker"
+//@   requires vcUpdating(s)
+//@   modifies allEdges[*], *t
+
+//@ func (s *ShapeIndex) addShapeInternal(shapeID int32, allEdges [][]faceEdge, t *tracker)
+//@   assumed "edge clipping (float) and interior pointers: body outside the subset; touches only allEdges and the tracker"
+//@   requires vcUpdating(s)
+//@   modifies allEdges[*], *t
+
+//@ func (s *ShapeIndex) updateFaceEdges(face int, faceEdges []faceEdge, t *tracker)
+//@   assumed "recursive clipping with interior pointers: body outside the subset; it calls shrinkToFit, skipCellRange and updateEdges with the lock still held and only changes the cell list and cell map"
+//@   requires vcUpdating(s) && 0 <= face && face < 6
+//@   modifies s.cells, s.cellMap, *t
+//@   ensures s.cellMap != nil
+
+//@ func newTracker() *tracker
+//@   assumed "allocates the interior tracker"
+//@   ensures result != nil && vcFresh(result)
+
+//@ func (s *ShapeIndex) applyUpdatesInternal()
+//@   requires vcUpdating(s)
+//@   modifies s.cells, s.cellMap, s.pendingRemovals, s.pendingAdditionsPos
+//@   ensures [applied] vcSIcore(s) && s.pendingAdditionsPos == s.nextID && len(s.pendingRemovals) == 0
+//@   ensures [held] vcHeld(&s.mu)
+//@   loop 1 (rangeindex int): invariant vcUpdating(s)
+//@   loop 2 (id int32): invariant vcUpdating(s)
+//@   loop 3 (face int): invariant vcUpdating(s) && 0 <= face && face <= 6
+
+//@ func (s *ShapeIndex) maybeApplyUpdates()
+//@   requires vcSI(s) && !vcHeld(&s.mu)
+//@   modifies s.cells, s.cellMap, s.pendingRemovals, s.pendingAdditionsPos, s.status
+//@   ensures [SI] vcSI(s) && s.status == fresh && !vcHeld(&s.mu)
+//@   ensures [ids] s.nextID == old(s.nextID)
+
+//@ func (s *ShapeIndex) Build()
+//@   requires vcSI(s) && !vcHeld(&s.mu)
+//@   modifies s.cells, s.cellMap, s.pendingRemovals, s.pendingAdditionsPos, s.status
+//@   ensures [SI] vcSI(s) && s.status == fresh && !vcHeld(&s.mu)
+
+//@ func NewShapeIndexIterator(index *ShapeIndex, pos ...ShapeIndexIteratorPos) *ShapeIndexIterator
+//@   assumed "iterator construction is verified under C06; here only: returns a fresh iterator and does not change the index"
+//@   requires index != nil
+//@   ensures result != nil && vcFresh(result)
+
+//@ func (s *ShapeIndex) Iterator() *ShapeIndexIterator
+//@   requires vcSI(s) && !vcHeld(&s.mu)
+//@   modifies s.cells, s.cellMap, s.pendingRemovals, s.pendingAdditionsPos, s.status
+//@   ensures [SI] vcSI(s) && s.status == fresh && !vcHeld(&s.mu) && result != nil
+
+//@ func (s *ShapeIndex) Begin() *ShapeIndexIterator
+//@   requires vcSI(s) && !vcHeld(&s.mu)
+//@   modifies s.cells, s.cellMap, s.pendingRemovals, s.pendingAdditionsPos, s.status
+//@   ensures [SI] vcSI(s) && s.status == fresh && !vcHeld(&s.mu) && result != nil
+
+//@ func (s *ShapeIndex) End() *ShapeIndexIterator
+//@   requires vcSI(s) && !vcHeld(&s.mu)
+//@   modifies s.cells, s.cellMap, s.pendingRemovals, s.pendingAdditionsPos, s.status
+//@   ensures [SI] vcSI(s) && s.status == fresh && !vcHeld(&s.mu) && result != nil
+
+//@ func (p *PaddedCell) ShrinkToFit(rect r2.Rect) CellID
+//@   assumed "float geometry"
+//@   requires p != nil
+
+//@ func (s *ShapeIndexIterator) LocateCellID(target CellID) CellRelation
+//@   assumed "verified under C06"
+//@   requires s != nil
+//@   modifies *s
+
+// shrinkToFit is reached only from the update path (lock held, status not fresh).
+//@ func (s *ShapeIndex) shrinkToFit(pcell *PaddedCell, bound r2.Rect) CellID
+//@   requires vcUpdating(s) && pcell != nil
+//@   modifies s.cells, s.cellMap, s.pendingRemovals, s.pendingAdditionsPos, s.status
+//@   ensures [held] vcHeld(&s.mu)
+
+// ---------------------------------------------------------------- EdgeQuery: options are inputs, never outputs
+
+// MaxResults must be at least 1 (documented requirement of the options)
+//@ spec func vcEQ(e *EdgeQuery) bool = e != nil && e.opts != nil && e.opts.maxResults >= 1
+
+//@ func (e *EdgeQuery) findEdgesInternal(target distanceTarget, opts *queryOptions)
+//@   assumed "the search itself (float distances, queue): outside the subset; it installs opts and rewrites the per-call scratch fields only"
+//@   requires e != nil && opts != nil
+//@   modifies e.target, e.opts, e.testedEdges, e.distanceLimit, e.results, e.useConservativeCellDistance, e.avoidDuplicates, e.indexNumEdges, e.indexNumEdgesLimit, e.indexCovering, e.indexCells, e.iter, e.initialCells, e.maxDistanceCovering
+//@   ensures e.opts == opts
+//@   ensures forall k int :: 0 <= k && k < len(e.results) ==> e.results[k].distance != nil
+
+//@ func sortAndUniqueResults(results []EdgeQueryResult) []EdgeQueryResult
+//@   assumed "verified under C08"
+//@   requires forall k int :: 0 <= k && k < len(results) ==> results[k].distance != nil
+//@   modifies results[*]
+//@   ensures len(result) <= len(results)
+//@   ensures forall k int :: 0 <= k && k < len(result) ==> result[k].distance != nil
+
+//@ func newEdgeQueryResult(target distanceTarget) EdgeQueryResult
+//@   assumed "value constructor: distance is the target's infinity"
+//@   ensures result.distance != nil
+
+//@ func (e *EdgeQuery) FindEdges(target distanceTarget) []EdgeQueryResult
+//@   requires vcEQ(e)
+//@   replay in_e.index = NewShapeIndex(); in_e.testedEdges = map[ShapeEdgeID]uint32{}; in_e.queue = newQueryQueue(); in_target = NewMinDistanceToPointTarget(PointFromCoords(1, 0, 0)); if in_e.opts.maxResults > 1000 { in_e.opts.maxResults = 5 }
+//@   noframe
+//@   ensures [opts-unchanged] e.opts == old(e.opts) && vcSame(*e.opts, old(*e.opts))
+
+//@ func (e *EdgeQuery) Distance(target distanceTarget) s1.ChordAngle
+//@   requires vcEQ(e)
+//@   replay in_e.index = NewShapeIndex(); in_e.testedEdges = map[ShapeEdgeID]uint32{}; in_e.queue = newQueryQueue(); in_target = NewMinDistanceToPointTarget(PointFromCoords(1, 0, 0)); if in_e.opts.maxResults > 1000 { in_e.opts.maxResults = 5 }
+//@   noframe
+//@   ensures [opts-unchanged] e.opts == old(e.opts) && vcSame(*e.opts, old(*e.opts))
+
+//@ func (e *EdgeQuery) IsDistanceLess(target distanceTarget, limit s1.ChordAngle) bool
+//@   requires vcEQ(e)
+//@   replay in_e.index = NewShapeIndex(); in_e.testedEdges = map[ShapeEdgeID]uint32{}; in_e.queue = newQueryQueue(); in_target = NewMinDistanceToPointTarget(PointFromCoords(1, 0, 0)); if in_e.opts.maxResults > 1000 { in_e.opts.maxResults = 5 }
+//@   noframe
+//@   ensures [opts-unchanged] e.opts == old(e.opts) && vcSame(*e.opts, old(*e.opts))
+
+//@ func (e *EdgeQuery) IsDistanceGreater(target distanceTarget, limit s1.ChordAngle) bool
+//@   requires vcEQ(e)
+//@   replay in_e.index = NewShapeIndex(); in_e.testedEdges = map[ShapeEdgeID]uint32{}; in_e.queue = newQueryQueue(); in_target = NewMinDistanceToPointTarget(PointFromCoords(1, 0, 0)); if in_e.opts.maxResults > 1000 { in_e.opts.maxResults = 5 }
+//@   noframe
+//@   ensures [opts-unchanged] e.opts == old(e.opts) && vcSame(*e.opts, old(*e.opts))
+
+//@ func (e *EdgeQuery) IsConservativeDistanceLessOrEqual(target distanceTarget, limit s1.ChordAngle) bool
+//@   requires vcEQ(e)
+//@   replay in_e.index = NewShapeIndex(); in_e.testedEdges = map[ShapeEdgeID]uint32{}; in_e.queue = newQueryQueue(); in_target = NewMinDistanceToPointTarget(PointFromCoords(1, 0, 0)); if in_e.opts.maxResults > 1000 { in_e.opts.maxResults = 5 }
+//@   noframe
+//@   ensures [opts-unchanged] e.opts == old(e.opts) && vcSame(*e.opts, old(*e.opts))
+
+//@ func (e *EdgeQuery) IsConservativeDistanceGreaterOrEqual(target distanceTarget, limit s1.ChordAngle) bool
+//@   requires vcEQ(e)
+//@   replay in_e.index = NewShapeIndex(); in_e.testedEdges = map[ShapeEdgeID]uint32{}; in_e.queue = newQueryQueue(); in_target = NewMinDistanceToPointTarget(PointFromCoords(1, 0, 0)); if in_e.opts.maxResults > 1000 { in_e.opts.maxResults = 5 }
+//@   noframe
+//@   ensures [opts-unchanged] e.opts == old(e.opts) && vcSame(*e.opts, old(*e.opts))
+
+// ---------------------------------------------------------------- polygons always carry an index
+
+//@ func (p *Polygon) initEdgesAndIndex()
+//@   requires p != nil && (forall k int :: 0 <= k && k < len(p.loops) ==> p.loops[k] != nil && len(p.loops[k].vertices) >= 1)
+//@   modifies p.numEdges, p.cumulativeEdges, p.index
+//@   ensures [index] p.index != nil
+//@   loop 1 (rangeindex int): invariant p != nil
